@@ -1,6 +1,9 @@
 import Generated.CloneTable
 import Req.Client.CloneFacts
 import Req.Props.C19
+import Req.Props.C19Graph
+import Req.Client.ShareJudge
+import Req.Client.ReqSetters
 /-!
 # C19 — bridging theorems over the regenerated clone/setter facts
 
@@ -15,6 +18,9 @@ obligation is the unconditional one.
 -/
 namespace Bridge.C19
 open Generated.CloneTable Req.CloneFacts
+
+-- the `decide`s below walk the whole regenerated table: their depth grows with the number of fields in the source
+set_option maxRecDepth 65536
 
 /-- Row ids excused by the open findings. -/
 def excused : List Nat :=
@@ -162,5 +168,113 @@ theorem repo_heap_refines_scope (grow : Nat → Nat → Nat) (ops : List Req.Sco
 
 /-- The scan saw the settings API (guards against an extractor that silently sees nothing). -/
 theorem scan_not_vacuous : 150 ≤ settingsMethodsScanned ∧ 100 ≤ rows.length := by decide
+
+
+/-! ## The object graph of the code under test (round 4)
+
+`Req/Client/Graph.lean` + `Req/Props/C19Graph.lean`: `Clone` as a copy of an object graph directed by
+a per-field specification, and the separation theorem under the decidable premise `rowsSafe`.
+Here the specification is computed from the regenerated rows — one graph type per struct
+(`Client`, `Transport`, the embedded `Options`, the HTTP/2 transport, `retryOption`,
+`DumpOptions`, `tls.Config`, `http.Client`, the dumper, and the two kinds of closures the
+library builds around one client / one transport) — and the premise is decided. -/
+
+namespace GraphOfRepo
+open Req.Graph Req.Props.C19Graph Req.ShareJudge
+
+/-- graph types: 0 plain value, 1 function value (both immutable leaves), 2 any other object
+(map, array, pointed-to struct that is not modelled further), 10… the modelled structs, 19 a
+closure over a client, 20 a closure over a transport -/
+def ownerTy (o : String) : Ty :=
+  if o == "Client" then 10 else if o == "Transport" then 11 else if o == "Options" then 12
+  else if o == "H2Transport" then 13 else if o == "retryOption" then 14 else if o == "DumpOptions" then 15
+  else if o == "TLSConfig" then 16 else if o == "HTTPClient" then 17 else if o == "Dumper" then 18 else 2
+
+/-- where a field leads: to another modelled struct, to a per-client closure, or to a leaf by kind -/
+def targetTy (r : Row) : Ty :=
+  if r.id == Client_Transport.id then 11
+  else if r.id == Transport_Options.id then 12
+  else if r.id == Transport_t2.id then 13
+  else if r.id == Options_TLSClientConfig.id then 16
+  else if r.id == Options_Dump.id then 18
+  else if r.id == Client_retryOption.id then 14
+  else if r.id == Client_dumpOptions.id then 15
+  else if r.id == Client_httpClient.id then 17
+  else if r.id == H2Transport_Options.id then 12
+  else if r.id == HTTPClient_Transport.id then 11
+  else if r.id == Client_wrappedRoundTrip.id || r.id == Options_Debugf.id || r.id == Options_TLSHandshakeContext.id then 19
+  else if r.id == Transport_wrappedRoundTrip.id then 20
+  else match r.kind with
+    | .value => 0
+    | .func => 1
+    | _ => 2
+
+/-- what the copy's field is, from the row's `how` and the ordering facts of `Client.Clone` -/
+def treatOf (r : Row) : Treat :=
+  -- fields that `Clone` first copies by assignment and then makes again for the copy
+  if r.id == HTTPClient_Jar.id then (if jarRebuilt then .fresh else .share)
+  else if r.id == HTTPClient_Transport.id then (if httpClientTransportRebound then .toNew 11 else .share)
+  else if r.id == Options_Debugf.id then (if debugfRebound then .copy else .share)
+  else if r.id == Options_TLSHandshakeContext.id then
+    (if !fingerprintCapturesClient || fingerprintReboundInClone || open_fingerprint_captures_original then .copy else .share)
+  else if excused.contains r.id then .copy
+  else match r.how with
+    | .assigned => .share
+    | .cloned => .copy
+    | .rebuilt => if r.id == H2Transport_Options.id then .toNew 12 else if targetTy r == 19 || targetTy r == 20 then .copy else .fresh
+    | .absent => .zero
+
+/-- the strictest context: a TLS fingerprint is set and the client has a jar factory -/
+def strict : Ctx := ⟨true, true, false⟩
+
+def fieldRow (r : Row) : FieldRow :=
+  ⟨ownerTy r.owner, r.id, treatOf r, targetTy r, sharedByDesign r.owner r.field r.kind strict⟩
+
+/-- the regenerated rows as graph field rows, plus what the two per-client closures capture -/
+def repoRows : List FieldRow :=
+  rows.map fieldRow ++ [⟨19, 1000, .toNew 10, 10, false⟩, ⟨20, 1001, .toNew 11, 11, false⟩]
+
+def immTys : List Ty := [0, 1]
+
+/-- **Every field `Clone` shares is in the SharedByDesign list or refers to an immutable value** —
+decided for the regenerated table. A new reference-typed field copied by `cc := *c`, a `Clone`
+that hands the original's queue / pool / closure to the copy, breaks this. -/
+theorem repo_rows_safe : rowsSafe repoRows immTys = true := by decide
+
+/-- Hence, for EVERY heap that is an instance of the structs of the code under test: after `Clone`
+no object is reachable from both clients except immutable values and what lies below a
+SharedByDesign reference. -/
+theorem repo_clone_separates (fuel : Nat) (g : G) (r : Nat) (hwf : WFBelow g.next g) (hr : r < g.next)
+    (hc : Conforms repoRows immTys g) :
+    ∀ n, Reach (clone (specOf repoRows) fuel g r).1 r n →
+      Reach (clone (specOf repoRows) fuel g r).1 (clone (specOf repoRows) fuel g r).2 n →
+      Common (immOf immTys) (designOf repoRows) (clone (specOf repoRows) fuel g r).1 g.next n :=
+  rows_clone_separates repoRows immTys repo_rows_safe fuel g r hwf hr hc
+
+/-- the copy's dumper has a queue of its own. (That it also has a writer goroutine of its own —
+fact `dumperStarted`, printed for information — is tied behaviourally by lane `life`: where the
+goroutine is started is a matter of shape, e.g. lazily on first use, and not an obligation here.) -/
+theorem dumper_own_queue : (Dumper_ch.how != .assigned) = true := by decide
+
+/-- the rows that are shared, for the notes (all by design) -/
+def sharedRows : List (String × String) :=
+  (rows.filter fun r => treatOf r == .share && targetTy r != 0 && targetTy r != 1).map fun r => (r.owner, r.field)
+
+end GraphOfRepo
+
+/-! ## The request-level settings API is covered row by row (round 4) -/
+
+/-- every exported method of `*Request` returning `*Request` found in request.go has a row in
+`Req.ReqSetters.table` -/
+theorem request_setters_have_rows : requestSetters.all Req.ReqSetters.hasRow = true := by decide
+
+/-- and no row is about a method that no longer exists -/
+theorem request_setter_rows_current : Req.ReqSetters.table.all (fun e => requestSetters.contains e.1) = true := by decide
+
+/-- every family a row names is one the value model has -/
+theorem request_setter_families_known :
+    Req.ReqSetters.table.all (fun e => match e.2 with
+      | some c => Req.ReqSetters.families.contains c
+      | none => true) = true := by decide
 
 end Bridge.C19
